@@ -9,6 +9,8 @@ mod collection;
 #[cfg(feature = "internals")]
 mod csvdec;
 #[cfg(feature = "internals")]
+mod execstack;
+#[cfg(feature = "internals")]
 mod layout;
 #[cfg(feature = "internals")]
 mod rledec;
@@ -31,6 +33,8 @@ fn main() {
         "sql" => sqlrun::main(rest),
         #[cfg(feature = "internals")]
         "layout" => layout::main(rest),
+        #[cfg(feature = "internals")]
+        "execstack" => execstack::main(rest),
         "sched" => sched::main(rest),
         "cancel" => sched::cancel_main(rest),
         #[cfg(feature = "internals")]
